@@ -877,7 +877,6 @@ func (k *KnownFile) Match(prop, sig string) *Known {
 	return nil
 }
 
-
 // runRacePass executes the -race build of this check's scenario bodies and turns every
 // reported data race whose stacks touch jig/lisp into a violation (the race detector has
 // no false positives). It samples schedules: auxiliary evidence for the "no data race"
